@@ -12,7 +12,7 @@ Driver module "c01": a whole history on one metric in one request line.
                                                      arg  b:<u64> | h:<state> | `,`-list of h:k~h:v / h:k~N | `-`
                    remove/<args>
                    clear
-     pyval       sh:<hex> | i<int> | bT | bF | N | fh:<hex of str(x)>
+     pyval       sh:<hex> | i<int> | bT | bF | N | fh:<hex of str(x)> | th:<hex of str(tuple)> | lh:<hex of str(list)>
 
   reply:  ok <model observations> <spec observations>       (`;`-list, one per step, step 0 = after construction)
           err <class>                                        (the constructor raised)
@@ -46,6 +46,8 @@ def decPyVal (f : String) : Option PyVal :=
   | ['b', 'F'] => some (.bool false)
   | ['N'] => some .none
   | 'f' :: r => (decText (String.ofList r)).map PyVal.float
+  | 't' :: r => (decText (String.ofList r)).map PyVal.tuple
+  | 'l' :: r => (decText (String.ofList r)).map PyVal.list
   | _ => none
 
 def decKw (f : String) : Option (Str × PyVal) :=
